@@ -195,7 +195,11 @@ def facts_vhdx(rng):
 
 def facts_vmdk(rng):
     from dissect.hypervisor.disk.vmdk import VMDK, DiskDescriptor
-    names = [rng.choice(["disk-s001.vmdk", "my disk (2)-s001.vmdk", "dïsk ✓ 😀.vmdk", "a b c d e.vmdk", "data disk #2-flat.vmdk", "x=y;z.vmdk", 'we"ird.vmdk'.replace('"', "'")]) for _ in range(rng.choice([1, 2, 3]))]
+    import importlib
+    gen = importlib.import_module("props.c10").random_name   # words / numbers / keywords joined by spaces, quotes, dashes, control characters
+    names = [rng.choice(["disk-s001.vmdk", "my disk (2)-s001.vmdk", "dïsk ✓ 😀.vmdk", "a b c d e.vmdk", "data disk #2-flat.vmdk", "x=y;z.vmdk", "we'ird.vmdk",
+                         'my "old" disk-flat.vmdk', 'say "hi"-flat.vmdk', '"quoted".vmdk', 'a" 0'])
+             if rng.random() < 0.5 else gen(rng, k).replace("\r", " ") for k in range(rng.choice([1, 2, 3]))]
     types = [rng.choice(["SPARSE", "FLAT", "VMFS", "VMFSSPARSE", "SESPARSE"]) for _ in names]
     secs = [rng.choice([1, 8, 4192256, 2 ** 33 + 5]) for _ in names]
     modes = [rng.choice(["RW", "RDONLY", "NOACCESS"]) for _ in names]
@@ -211,6 +215,7 @@ def facts_vmdk(rng):
          ["sectors_total", sum(secs), d.sectors]]
     for k, e in enumerate(d.extents):
         f.append([f"extent{k}", repr((modes[k], secs[k], types[k], names[k])), repr((e.access_mode, e.sectors, e.type, e.filename))])
+        f.append([f"extent{k}.tail", repr((0 if types[k] == "FLAT" else None, None, None)), repr((e.start_sector, e.partition_uuid, e.device_identifier))])
     # DiskDescriptor.__str__ re-renders what was parsed: parsing it again must expose the same values
     d2 = DiskDescriptor.parse(str(d))
     f.append(["str-roundtrip", repr((sorted(d.attr.items()), sorted(d.ddb.items()), [(e.access_mode, e.sectors, e.type, e.filename) for e in d.extents])),
